@@ -147,4 +147,8 @@ Definition case_code (fx : bool) (c : expr * res tv * option (res tv) * N) : N :
    + b (match rl with Some r => negb (impl_is r zt) | None => false end) 16
    + b (is_unmodelled mg) 32
    + b (match rl with Some _ => is_unmodelled ml | None => false end) 64
-   + 256 * first_class g + 65536 * first_class e)%N.
+   (* evaluate(): when the translation fails over to is_valid(substituted atom), the atom that is judged is g *)
+   + 256 * first_class g + 65536 * (match tr fx e with Fail => first_class g | _ => first_class e end)
+   (* the verdict comes from the Z3 fall-back (solve_using_z3, 500 ms budget): `unknown` is then Z3's own answer *)
+   + b (match py_eval fx g with Fail => true | _ => false end) 16777216
+   + b (match tr fx e, py_eval fx g with Fail, Fail => true | _, _ => false end) 33554432)%N.
